@@ -20,7 +20,7 @@ def run(ctx):
     ctx.trusted_base.append('engine/effects.py (effect vocabulary)')
     ar.parts_first_rule(ctx, 'R19.1')
     ar.fresh_part_rule(ctx, 'R19.2')
-    ar.single_file_route_rule(ctx, 'R19.12')
+    ar.single_file_route_rule(ctx, 'R19.14')
     ar.error_discipline_rule(ctx, 'R19.3')
     ar.io_ownership_rule(ctx, 'R19.4')
     ar.no_remove_rename_rule(ctx, 'R19.5')
@@ -43,6 +43,7 @@ def run(ctx):
     _c17.r176(ctx, 'R19.11')
     from . import findings3 as _f3
     _f3.kind_of_appended_values(ctx, 'R19.12')
+    _f3.write_conversions(ctx, 'R19.13')
     _cs.general_rules(ctx, 'R19', ['writer.write', 'writer.write_multi', 'writer.partition_on_columns', 'writer.make_part_file', 'api.ParquetFile.write_row_groups', 'api.ParquetFile._write_common_metadata', 'writer.write_common_metadata', 'api.ParquetFile._dtypes'])
     ar.open_close_pairing_rule(ctx, 'R19.6')
     ar.single_pass_data_rule(ctx, 'R19.7')
